@@ -12,7 +12,8 @@ def say(tag, val):
 
 
 def prelude():
-    return [Asg("say", Fn([Param("tag"), Param("v")], Block([Core("print", [Id("tag")]), Id("v")])))]
+    return [Asg("say", Fn([Param("tag"), Param("v")], Block([Core("print", [Id("tag")]), Id("v")]))),
+            Asg("un", Fn([Param("tag")], Block([Core("print", [Id("tag")]), Throw(Unimpl())])))]
 
 
 def fn1(body):
@@ -40,15 +41,17 @@ def operand(kind, op, side, shared=False):
     if kind == "map":
         return Map(["a"], [Int(1)])
     if kind == "obj0":
-        return obj({"@type": Str("T")}, shared=shared)
+        return obj({"@type": Str("T" + side)}, {"d": Int(5 if side == "l" else 7)}, shared=shared)
     key = ("@" if side == "l" else "@r") + op
+    # the two operands carry different data, and the result names both self and other: which operand was passed as which
+    # is part of the prediction
+    data = {"d": Int(5 if side == "l" else 7)}
     if kind == "objv":
-        return obj({key: fn1(say(side + op, Tuple([Str("res" + side), Id("other") if True else Null()])))}, shared=shared)
+        return obj({key: fn1(say(side + op, Tuple([Str("res" + side), Dot(Id("self"), "d"), Core("type", [Id("other")])]))), "@type": Str("T" + side)}, data, shared=shared)
     if kind == "obju":
-        return obj({key: fn1(say(side + op + "-unimpl", Null())) if False else
-                    Fn([Param("other")], Block([Throw(Unimpl())]))}, shared=shared)
+        return obj({key: fn1(App(Id("un"), [Tuple([Str("unimpl" + side), Dot(Id("self"), "d")])])), "@type": Str("T" + side)}, data, shared=shared)
     if kind == "obje":
-        return obj({key: Fn([Param("other")], Block([Throw(Str("op failed"))]))}, shared=shared)
+        return obj({key: Fn([Param("other")], Block([Throw(Str("op failed"))]))}, data, shared=shared)
     raise ValueError(kind)
 
 
